@@ -1,6 +1,6 @@
 (* C05 - when a connection dies every caller is released with an error (I/O-thread side).
    This file only pins statements. *)
-From Amq Require Import Lib.Base Gen.Consts Model.Wire Model.Frames Model.OutBuf Model.Collector Model.Slots Model.Core Spec.Slots Spec.Content Proofs.Slots Proofs.OutBuf Proofs.Collector Proofs.CoreContent Proofs.CoreInv Proofs.CoreMore Check.Core Proofs.Examples Model.Handle Proofs.Handle Model.Sys Proofs.Sys Model.Close Proofs.Close Lib.RsVal Gen.SrcHandle Proofs.HandleSrc Gen.SrcException Proofs.ExceptionSrc Gen.SrcClose Proofs.CloseSrc Gen.SrcHbPass Proofs.HbPassSrc.
+From Amq Require Import Lib.Base Gen.Consts Model.Wire Model.Frames Model.OutBuf Model.Collector Model.Slots Model.Core Spec.Slots Spec.Content Proofs.Slots Proofs.OutBuf Proofs.Collector Proofs.CoreContent Proofs.CoreInv Proofs.CoreMore Check.Core Proofs.Examples Model.Handle Proofs.Handle Model.Sys Proofs.Sys Model.Close Proofs.Close Lib.RsVal Gen.SrcDrain Proofs.DrainSrc Gen.SrcHandle Proofs.HandleSrc Gen.SrcException Proofs.ExceptionSrc Gen.SrcClose Proofs.CloseSrc Gen.SrcHbPass Proofs.HbPassSrc.
 
 (* a read that ends in EOF / an I/O error / an unparsable frame after frames that were all processed: the event's outcome is the error that names it (unless the close handshake had completed) *)
 Theorem C05_fatal_read : forall (c : core) (fs : list dframe) (t : rterm) (c2 : core), process_all c fs = (OOk, c2) -> is_client_closed c2 = false -> fst (fst (handle_event c (EvStream None (Some (fs, t))))) = term_outcome t.
@@ -74,6 +74,18 @@ Proof. exact close_source_is_model. Qed.
 Theorem C05_pass_source_is_model : forall (fired : list (hbkind * bool)) (c : core), gen_Inner_process_heartbeat_timers ext_st_model (S (Datatypes.length fired)) (enc_self fired (c_out c)) = (enc_self (hb_rest fired) (c_out (snd (heartbeat_timers fired c))), enc_outcome (fst (heartbeat_timers fired c))).
 Proof. exact pass_source_is_model. Qed.
 
+(* Inner::handle_channel0_readable as translated from src/io_loop/mod.rs on every run (Gen/SrcDrain.v) is, for EVERY behaviour of try_recv on channel 0's mailbox and of process_channel_message (any Result), the generic loop `drain`: take a message and process it; an empty mailbox returns Ok, a disconnected one EventLoopClientDropped, a failing process_channel_message its error *)
+Theorem C05_ch0_drain_source_is_drain : forall (ext_st : string -> list val -> val -> val * val) (slot : val), (forall m s : val, (exists u : val, snd (ext_st "self.process_channel_message" [VN 0; m] s) = VC "Ok" [u]) \/ (exists e : val, snd (ext_st "self.process_channel_message" [VN 0; m] s) = VC "Err" [e])) -> forall (fuel : nat) (self : val), gen_Inner_handle_channel0_readable ext_st fuel self slot = drain (rcv_v ext_st slot) (proc_v ext_st) VStuck fuel self.
+Proof. exact ch0_drain_source_is_drain. Qed.
+
+(* Model/Core.v's ch0_readable - the mailbox drain the C05 / C09 core theorems are about - is the same generic loop over the model's state *)
+Theorem C05_ch0_readable_is_drain : forall (fuel : nat) (c : core), ch0_readable fuel c = (let '(c', o) := drain rcv_core proc_core OOk fuel c in (o, c')).
+Proof. exact ch0_readable_is_drain. Qed.
+
+(* THE MODEL IS THE SOURCE, relative to the externals: under ANY relation between the model's state and the translated one that try_recv and process_channel_message preserve (the hypotheses of the statement), the translated handle_channel0_readable and ch0_readable end in related states with related results, for every mailbox content and length *)
+Theorem C05_ch0_readable_source_is_model : forall (ext_st : string -> list val -> val -> val * val) (slot : val) (RS : core -> val -> Prop) (RM : msg -> val -> Prop) (RR : outcome -> val -> Prop), (forall m s : val, (exists u : val, snd (ext_st "self.process_channel_message" [VN 0; m] s) = VC "Ok" [u]) \/ (exists e : val, snd (ext_st "self.process_channel_message" [VN 0; m] s) = VC "Err" [e])) -> (forall (c : core) (s : val), RS c s -> RS (fst (rcv_core c)) (fst (rcv_v ext_st slot s)) /\ step_rel RM RR (snd (rcv_core c)) (snd (rcv_v ext_st slot s))) -> (forall (m : msg) (mv : val) (c : core) (s : val), RM m mv -> RS c s -> RS (fst (proc_core m c)) (fst (proc_v ext_st mv s)) /\ opt_rel RR (snd (proc_core m c)) (snd (proc_v ext_st mv s))) -> RR OOk VStuck -> forall (fuel : nat) (c : core) (self : val), RS c self -> RS (snd (ch0_readable fuel c)) (fst (gen_Inner_handle_channel0_readable ext_st fuel self slot)) /\ RR (fst (ch0_readable fuel c)) (snd (gen_Inner_handle_channel0_readable ext_st fuel self slot)).
+Proof. exact ch0_readable_source_is_model. Qed.
+
 (* non-vacuity of C05_releases_*: in a reachable state with two channels and a consumer on
    each, every queue has a live sender; after the thread's state is dropped none has *)
 Example C05_example :
@@ -113,6 +125,9 @@ Check C05_call_source_is_model : forall (c : hcall) (s : hstate) (r : hres) (s' 
 Check C05_client_exception_source_is_model : forall (self code : val) (s : list N) (log : list val), (forall b : N, nth_error s 0 = Some b -> is_cont b = false) -> gen_ConnectionState_client_exception ext_model 257 self (VC "effects" log) code (VBytes s) = finish code (trunc255 s) log.
 Check C05_close_source_is_model : forall (have : bool) (req : req_res) (io : io_end), gen_Connection_close_impl (CloseSrc.ext_st_model req io) (CloseSrc.enc_self have false) = (CloseSrc.enc_self false (snd (close_impl have req io)), enc_res (fst (close_impl have req io))).
 Check C05_pass_source_is_model : forall (fired : list (hbkind * bool)) (c : core), gen_Inner_process_heartbeat_timers ext_st_model (S (Datatypes.length fired)) (enc_self fired (c_out c)) = (enc_self (hb_rest fired) (c_out (snd (heartbeat_timers fired c))), enc_outcome (fst (heartbeat_timers fired c))).
+Check C05_ch0_drain_source_is_drain : forall (ext_st : string -> list val -> val -> val * val) (slot : val), (forall m s : val, (exists u : val, snd (ext_st "self.process_channel_message" [VN 0; m] s) = VC "Ok" [u]) \/ (exists e : val, snd (ext_st "self.process_channel_message" [VN 0; m] s) = VC "Err" [e])) -> forall (fuel : nat) (self : val), gen_Inner_handle_channel0_readable ext_st fuel self slot = drain (rcv_v ext_st slot) (proc_v ext_st) VStuck fuel self.
+Check C05_ch0_readable_is_drain : forall (fuel : nat) (c : core), ch0_readable fuel c = (let '(c', o) := drain rcv_core proc_core OOk fuel c in (o, c')).
+Check C05_ch0_readable_source_is_model : forall (ext_st : string -> list val -> val -> val * val) (slot : val) (RS : core -> val -> Prop) (RM : msg -> val -> Prop) (RR : outcome -> val -> Prop), (forall m s : val, (exists u : val, snd (ext_st "self.process_channel_message" [VN 0; m] s) = VC "Ok" [u]) \/ (exists e : val, snd (ext_st "self.process_channel_message" [VN 0; m] s) = VC "Err" [e])) -> (forall (c : core) (s : val), RS c s -> RS (fst (rcv_core c)) (fst (rcv_v ext_st slot s)) /\ step_rel RM RR (snd (rcv_core c)) (snd (rcv_v ext_st slot s))) -> (forall (m : msg) (mv : val) (c : core) (s : val), RM m mv -> RS c s -> RS (fst (proc_core m c)) (fst (proc_v ext_st mv s)) /\ opt_rel RR (snd (proc_core m c)) (snd (proc_v ext_st mv s))) -> RR OOk VStuck -> forall (fuel : nat) (c : core) (self : val), RS c self -> RS (snd (ch0_readable fuel c)) (fst (gen_Inner_handle_channel0_readable ext_st fuel self slot)) /\ RR (fst (ch0_readable fuel c)) (snd (gen_Inner_handle_channel0_readable ext_st fuel self slot)).
 
 Print Assumptions C05_fatal_read.
 Print Assumptions C05_fatal_outcomes.
@@ -132,5 +147,8 @@ Print Assumptions C05_call_source_is_model.
 Print Assumptions C05_client_exception_source_is_model.
 Print Assumptions C05_close_source_is_model.
 Print Assumptions C05_pass_source_is_model.
+Print Assumptions C05_ch0_drain_source_is_drain.
+Print Assumptions C05_ch0_readable_is_drain.
+Print Assumptions C05_ch0_readable_source_is_model.
 Print Assumptions C05_example.
 Print Assumptions C05_system_example.
